@@ -372,8 +372,10 @@ func registerStd(e *Engine, simple func(string, func(*Run, []Value) Value)) {
 	in[rtPkg+".EngineAfter"] = func(r *Run, g *Goroutine, fv *FuncV, a []Value, retTo func(Value)) (Value, bool) {
 		d := r.concreteInt(a[0], "timer duration")
 		f := a[1].(*FuncV)
+		creator := g
 		r.addTimer(d, func() {
 			ng := r.newGoroutine("timer")
+			r.raceFork(creator, ng)
 			r.invoke(ng, f, nil, nil)
 			if len(ng.stack) == 0 {
 				ng.finished = true
